@@ -81,7 +81,13 @@ def r3(F, rep):
     elems = [w for w, t in lvalue_writes(f) if X.key(t, f).startswith("op[](this.force_bin") or X.key(t, f).startswith("this.force_bin[")]
     accs = [c for c in X.calls(f) if X.callee_name(c) == "acc_force" and "force_bin" in X.key(X.call_args(c)[0], f)]
     if not whole:
-        raise AnalysisBroken("colvarbias_abf::update: `force_bin = bin` not found")
+        # the refresh may have been moved to a helper of the class; if it is nowhere, that is the violation itself
+        moved = [g.q for g in F.funcs.values() if g.cls == "colvarbias_abf" and g.q != f.q and
+                 any(X.key(t, g) == "this.force_bin" and w["k"] in ("CXXOperatorCallExpr", "BinaryOperator") for w, t in lvalue_writes(g))]
+        if moved:
+            raise AnalysisBroken("colvarbias_abf::update: `force_bin = bin` moved to %s (rule needs to be re-anchored)" % moved)
+        rep.add("C04-R3", "force_bin|unconditional", f.loc(), "`force_bin = bin` is executed NOWHERE in colvarbias_abf", False,
+                detail="one-step-late force samples would always be attributed to a stale bin", func=f.q)
     for w in whole:
         uncond = not f.cfg.real_guards(w)
         rep.add("C04-R3", "force_bin|unconditional", f.loc(w), "`force_bin = bin` is executed %s" % (
